@@ -100,6 +100,13 @@ CHECKS = {
          "which must be pairwise disjoint and inside the writer's own directory.",
     note="multiprocessing.Pool (ordered imap, pickling) is a specified external; relative speeds are perturbed by delays, not controlled.",
     ref="DESIGN.md §5 C09"),
+ "C12": dict(
+    technique="Lean 4 proof (sublist / first-k / filter / per-metadata-limit / empty-is-error theorems about the selection routine) + a theorem over a wiring table regenerated from the source by an ast translator on every run + differential and end-to-end comparison across all interfaces and formats",
+    text="C12_select_sublist, _firstk, _filter, _limit, _empty_is_error, _nonempty, and C12_every_interface_forwards (decide over SedpackProps/C12Gen.lean, regenerated from dataset_iteration.py "
+         "before every build: a dropped option breaks the proof obligation directly). The model's selection is compared with the real shard_paths_dataset; every interface that accepts an option "
+         "is run on fb/npz/tfrec datasets with contiguous and interleaved metadata groups (flat and nested values) and must yield exactly the selected shards' examples.",
+    note="Grouping key = equality of the metadata value. Once the shard list is fixed, delivery is C02. The ast extractor is trusted code.",
+    ref="DESIGN.md §5 C12"),
 }
 
 def main():
